@@ -15,6 +15,8 @@ static unsigned short mon_cnt[4][257];
 #include "lines.c"
 #include "decoder.c"
 #include "bbcbasic_to_text.c"
+static char h_args[VERIF_ARGC_MAX + 1][16];
+static char *h_argv[VERIF_ARGC_MAX + 1];
 #include "basic_main.h"
 
 static void h_setup_main(void)
@@ -25,6 +27,7 @@ static void h_setup_main(void)
   verif_optind = 1;
   g_diag = nondet_ulong(); g_wfail = nondet_uint();
   g_lines_listed = nondet_ulong();
+  for (unsigned i = 0; i <= VERIF_ARGC_MAX; ++i) { h_args[i][15] = 0; h_argv[i] = h_args[i]; }
 }
 
 void h_set_listo(void)
@@ -49,7 +52,7 @@ void h_decode_file(void)
   g_len = nondet_size_t(); g_pos = 0;
   fmon_phase = FPH_START; fmon_lines = nondet_ulong(); g_lines_listed = fmon_lines;
   fmon_gk = nondet_size_t();
-  mon_map = &SPEC_MAP; mon_listo = nondet_int(); mon_indent_run = 0;
+  mon_listo = nondet_int(); mon_indent_run = 0;
   g_diag = nondet_ulong(); g_wfail = nondet_uint();
  g_read_error_happened = 0;
   bool r = decode_file(dec, "name", f);
@@ -59,18 +62,25 @@ void h_decode_file(void)
 
 void h_wrapped_main(void)
 {
-  char **argv;
   h_setup_main();
-  int r = wrapped_main(verif_argc, argv);
+  int r = wrapped_main(verif_argc, h_argv);
   VERIF_COVER(r == 0, "exit 0");
   VERIF_COVER(r == 1, "exit 1");
 }
 
 void h_main(void)
 {
-  char **argv;
   h_setup_main();
-  int r = main(verif_argc, argv);
+  int r = main(verif_argc, h_argv);
   VERIF_COVER(r == 0, "exit 0");
   VERIF_COVER(r == 1, "exit 1");
+}
+
+void h_print_dialects(void)
+{
+  FILE *f = nondet_bool() ? stdout : stderr;
+  mon_on = 0; g_diag = nondet_ulong(); g_wfail = nondet_uint();
+  bool r = print_dialects(f, "6502");
+  VERIF_COVER(r, "printed");
+  VERIF_COVER(!r, "write failed");
 }
